@@ -28,3 +28,6 @@ run heapq-cached-less-predicate.diff C05 C06 C08
 run cache-clear-callbacks-after-unlock.diff C08 C09
 run cache-remove-callback-after-unlock.diff C08 C09
 run shell-reset-discards-buffered-input.diff C15 C16
+run stree-new-sorts-callers-slice.diff C01 C02
+run stree-inorderafter-binds-root-at-creation.diff C01 C04
+run stack-slice-single-element-view.diff C10
